@@ -136,6 +136,11 @@ func judge(r *mon.Run, s *signed, e *signedexchange.Exchange, t time.Time, fetch
 		case !inWindow:
 			outcome = "OUTSIDE-WINDOW-VERIFIED"
 			r.Violation(key+":time", fmt.Sprintf("%s: verification succeeded at t=%d outside the signed window [%d, %d]", id, t.Unix(), s.spec.Date.Unix(), s.spec.Expires.Unix()), det)
+		case class == "certificate":
+			// every fetcher of this class serves something other than the chain whose leaf is named by the signed cert-sha256 and
+			// holds the signing key: whatever else is unchanged, the certificate that was served did not produce this signature
+			outcome = "SUBSTITUTED-CERTIFICATE-VERIFIED"
+			r.Violation(key+":cert", fmt.Sprintf("%s: verification succeeded although the fetcher served a certificate chain that cannot have produced the signature", id), det)
 		case class == "honest":
 			outcome = "honest-verified"
 		default:
